@@ -9,7 +9,7 @@ theorem init_ok (g : Cycles.GoodCfg) (pstep thr : Rat) (cache : Bool) (ph : List
   rw [init_eq, computeMetric_ok _ (init0_inv pstep thr cache ph) _ _ _ _ (init0_cv_length pstep thr cache ph)]
 
 theorem isGood_not_timing : isGoodName ∉ (Op.computeTimings).writes := by
-  simp [Op.writes, Op.stores, isGoodName]
+  decide
 
 /-- whatever `mode`, `compute_timings`, `use_cache`: the stored `is_good` metric is C13's quality flag -/
 theorem initOpts_isGood (g : Cycles.GoodCfg) (pstep thr : Rat) (cache : Bool) (mode : Mode) (timings : Bool)
